@@ -1429,14 +1429,14 @@ func c1NilGuards(c *Ctx, rule string, jsonOnly bool) {
 				continue
 			}
 			if !nilGuarded(call, v) && fn.Parent() != nil {
-			// inside a function literal: the test may sit where the literal is made or handed on. Decided by exploring
-			// the enclosing method (helpers and the literals handed to them inline): on every path that reaches the
-			// call the function value is known to be non-nil.
-			ok, why := c1NonNilOnPaths(fn, call)
-			c.Check(ok, rule, name, slot, call.Pos(), "the optional %s function is called only where it is known to be non-nil on every path of the enclosing method (tested, or substituted by a default) %s", fld, why)
-			continue
-		}
-		c.Check(nilGuarded(call, v), rule, name, slot, call.Pos(), "the optional %s function is called only where it was tested non-nil or substituted by a default (guards %v)", fld, AtomStrings(Guards(call)))
+				// inside a function literal: the test may sit where the literal is made or handed on. Decided by exploring
+				// the enclosing method (helpers and the literals handed to them inline): on every path that reaches the
+				// call the function value is known to be non-nil.
+				ok, why := c1NonNilOnPaths(fn, call)
+				c.Check(ok, rule, name, slot, call.Pos(), "the optional %s function is called only where it is known to be non-nil on every path of the enclosing method (tested, or substituted by a default) %s", fld, why)
+				continue
+			}
+			c.Check(nilGuarded(call, v), rule, name, slot, call.Pos(), "the optional %s function is called only where it was tested non-nil or substituted by a default (guards %v)", fld, AtomStrings(Guards(call)))
 		}
 	}
 	if n < 10 {
